@@ -6,6 +6,21 @@ COMMON_TB = [
     "GMP, libstdc++, boost, g++",
 ]
 
+import re
+import tables
+import cow_methods
+
+def nontriv_cg(l):
+    if "=>" not in l:
+        return False
+    vals = re.findall(r"\(cg -?\d+ -?\d+\)|bot", l.split("=>", 1)[1])
+    ops = vals[:-1] if len(vals) > 1 else vals
+    return bool(ops) and all(v not in ("bot", "(cg 1 0)") for v in ops)
+
+def nontriv_fin(l):
+    req = l.split("=>", 1)[0]
+    return " bot" not in req and " top" not in req
+
 def nontriv_iv(l):
     return "bot" not in l and "(iv -oo +oo)" not in l
 
@@ -18,6 +33,7 @@ DOMAINS = {  # VDOM id -> name (see harness/h_dom.cpp)
     15: "flat-bool-sparse-dbm", 18: "array-smashing-sdbm", 19: "array-adaptive-intervals",
     20: "generic-wrapper-sdbm", 21: "generic-wrapper-intervals", 22: "split-dbm-bignum",
     25: "sparse-dbm-int64", 26: "split-dbm-int64", 6: "sparse-dbm-safe", 7: "split-dbm-safe", 8: "split-oct-safe",
+    3: "signs", 4: "sign-constants", 5: "ric", 24: "congruences",
 }
 
 def dom_components(tag, quick, thorough, ids=None):
@@ -48,11 +64,15 @@ DOM_ASSUME = [
 PROPS = {
     "C08": {
         "level": "proof",
-        "lean_modules": ["CrabProofs.Props.C08"],
+        "lean_modules": ["CrabProofs.Props.C08", "CrabProofs.Props.C08Cong", "CrabProofs.Props.C08Fin",
+                         "CrabProofs.Props.C08Cst", "CrabProofs.Props.C08IC", "CrabProofs.Props.C08Itv2"],
+        "tables": [tables.gen_tables],
         "components": [
             {"harness": "h_iv", "quick": 240000, "thorough": 4000000, "shards": 16, "nontrivial": nontriv_iv},
+            {"harness": "h_cong", "quick": 150000, "thorough": 3000000, "shards": 16, "nontrivial": nontriv_cg},
+            {"harness": "h_fin", "quick": 100000, "thorough": 1000000, "shards": 8, "nontrivial": nontriv_fin},
         ],
-        "rule": "boundary-biased random operands (bottom, top, singletons, half lines, zero-crossing, 2^k±d, 40-digit) x every operation; a case is non-trivial when no operand is bottom or top; distinct = distinct request lines",
+        "rule": "intervals: boundary-biased random operands (bottom, top, singletons, half lines, zero-crossing, 2^k±d, 40-digit) x every operation; congruences / interval-congruences built through the public API by expressions (moduli 0..12, 13..1000, 2^32, 2^63±1, 2^64, negative residues, bottom, top) x every operation; sign and boolean: the whole finite domain (tables regenerated from the tree on every run); constants: boundary-biased numbers; a case is non-trivial when no operand is bottom or top; distinct = distinct request lines",
         "assumptions": [
             "concrete semantics of the operations on mathematical integers: sdiv/srem truncate, division/remainder by zero has no successor, ashr = floor division by 2^k, lshr/udiv/urem only checked on non-negative operands, and/or/xor = infinite two's complement",
         ],
@@ -87,7 +107,8 @@ PROPS = {
     },
     "C16": {
         "level": "proof",
-        "lean_modules": ["CrabProofs.Props.C16"],
+        "lean_modules": ["CrabProofs.Props.C16", "CrabProofs.Props.C16Cow"],
+        "tables": [cow_methods.gen_cow_methods],
         "components": dom_components("[C16]", 700, 10000),
         "rule": DOM_RULE + "; C16: after every operation on one value the full dump (is_bottom, is_top, at(v), constraints) of every other pool value must be unchanged; copies are made by the copy constructor and copy assignment",
         "assumptions": DOM_ASSUME,
@@ -126,7 +147,7 @@ PROPS = {
         "components": [{"harness": "h_wto", "quick": 24000, "thorough": 600000, "shards": 8,
                         "nontrivial": lambda l: (" (w " in l) and ("(" in l.split(" (w ", 1)[1].split(" (nest", 1)[0])}],
         "rule": "random directed graphs (1-16 nodes quick, up to 40 thorough; self loops, nested and irreducible cycles, unreachable parts, every node as entry, permuted successor orders) built as real crab CFGs; the implementation's ordering and nesting table are checked by the proved checker checkWto and compared with the model of the iterative Bourdoncle algorithm; non-trivial = the ordering has a cycle",
-        "assumptions": ["successor order = the order in which the cfg enumerates next_blocks (printed by the harness)", "call-graph instance of wto<> not driven"],
+        "assumptions": ["successor order = the order in which the graph enumerates out_edges (read back and printed by the harness; the driver checks it is the same edge set as requested)"],
         "trusted_base": COMMON_TB + ["model: CrabModel/Graph/Wto.lean, checker: CrabModel/Graph/WtoCheck.lean"],
     },
     "C20": {
